@@ -6,6 +6,7 @@ import (
 	"strconv"
 	"strings"
 	"sync"
+	"sync/atomic"
 	"testing"
 	"time"
 
@@ -162,6 +163,7 @@ type lifecycleCase struct {
 	CancelMs int
 	DurMs    int
 	BodyUs   int
+	Second   bool // the judged run is the second run of the same registered scenario in this process
 }
 
 func (c lifecycleCase) desc() string {
@@ -169,7 +171,7 @@ func (c lifecycleCase) desc() string {
 	for i, b := range c.Bodies {
 		bs[i] = b.String()
 	}
-	return fmt.Sprintf("%s c=%d ending=%s limit=%d dur=%dms cancel=%dms body=%dus setup=[%s] bodies=%v", c.Mode, c.Conc, c.Ending, c.Limit, c.DurMs, c.CancelMs, c.BodyUs, c.Setup, bs)
+	return fmt.Sprintf("%s c=%d ending=%s limit=%d dur=%dms cancel=%dms body=%dus setup=[%s] bodies=%v", c.Mode, c.Conc, c.Ending, c.Limit, c.DurMs, c.CancelMs, c.BodyUs, c.Setup, bs) + map[bool]string{true: " second-run-of-the-registered-scenario"}[c.Second]
 }
 
 func TestProp_Lifecycle(t *testing.T) {
@@ -220,18 +222,24 @@ func TestProp_Lifecycle(t *testing.T) {
 			c.BodyUs = 5000
 		}
 
-		rec := &recorder{}
+		c.Second = rapid.IntRange(0, 3).Draw(rt, "secondRun") == 0
+		judged := &recorder{}
+		var recNow atomic.Pointer[recorder] // the recorder of the run in progress
+		recNow.Store(judged)
+		var warmUp atomic.Bool
 		blocked := make(chan struct{}) // completion-timeout: iteration 1 blocks until after Do returned
 		var blockedOnce sync.Once
 		scenario := func(st *f1testing.T) f1testing.RunFn {
+			rec := recNow.Load()
 			rec.add("setup-start", "setup", 0, st)
 			defer rec.add("setup-end", "setup", 0, st)
 			c.Setup.run(rec, "setup", st)
 			return func(it *f1testing.T) {
+				rec := recNow.Load()
 				owner := it.Iteration
 				rec.add("body-start", owner, 0, it)
 				defer rec.add("body-end", owner, 0, it)
-				if c.Ending == "completion-timeout" && owner == "1" {
+				if c.Ending == "completion-timeout" && owner == "1" && !warmUp.Load() {
 					blockedOnce.Do(func() {})
 					<-blocked
 				}
@@ -253,6 +261,24 @@ func TestProp_Lifecycle(t *testing.T) {
 				"- duration: 150ms\n  mode: users\n  concurrency: %d\n- duration: 10s\n  mode: constant\n  rate: %d/10ms\n  jitter: 0\n  distribution: none\n",
 				vlib.ScenarioName, c.DurMs, c.Conc, c.Limit, c.Conc, c.Conc)
 		}
+		registry := vlib.NewScenarios(scenario)
+		if c.Second {
+			// a first run of the same registered scenario (what a second `run` on one F1 instance sees):
+			// three iterations in users mode, recorded apart; the lifecycle of the judged run starts afresh
+			warmUp.Store(true)
+			recNow.Store(&recorder{})
+			warm := &vlib.RunSpec{Mode: "users", FileDir: dir, Scenarios: registry, WaitTimeout: 20 * time.Second}
+			warm.Opts.Concurrency = 1
+			warm.Opts.MaxDuration = 5 * time.Second
+			warm.Opts.MaxIterations = 3
+			warm.Opts.IgnoreDropped = true
+			if _, err := vlib.Execute(warm); err != nil {
+				rt.Fatalf("VERIF-INFRA: cannot execute the first run of %s: %v", c.desc(), err)
+			}
+			warmUp.Store(false)
+			recNow.Store(judged)
+		}
+		rec := judged
 		ctx, cancel := context.WithCancel(context.Background())
 		defer cancel()
 		if c.Ending == "cancel" {
@@ -261,7 +287,7 @@ func TestProp_Lifecycle(t *testing.T) {
 				cancel()
 			}()
 		}
-		spec := &vlib.RunSpec{Mode: c.Mode, Flags: flags, FileYAML: yaml, FileDir: dir, ScenarioFn: scenario, Ctx: ctx, WaitTimeout: 20 * time.Second}
+		spec := &vlib.RunSpec{Mode: c.Mode, Flags: flags, FileYAML: yaml, FileDir: dir, Scenarios: registry, Ctx: ctx, WaitTimeout: 20 * time.Second}
 		if c.Ending == "completion-timeout" {
 			spec.WaitTimeout = time.Duration(rapid.IntRange(30, 120).Draw(rt, "waitMs")) * time.Millisecond
 		}
@@ -305,6 +331,9 @@ func TestProp_Lifecycle(t *testing.T) {
 		}
 		if setupFails {
 			cls = append(cls, "setup-fails")
+		}
+		if c.Second {
+			cls = append(cls, "second-run-of-the-registered-scenario")
 		}
 		stats.Case("programs", c.desc(), nontrivial, cls, func() any {
 			return map[string]any{"case": c.desc(), "events": len(log)}
